@@ -2,6 +2,7 @@
    the interleaving part is Properties/C07_lock.v).  Only statements. *)
 From Coq Require Import ZArith List Bool Arith Sorted.
 From Pamiq Require Import Model.Buffers Model.DataPipe Check.C07 Proofs.DataPipeProofs.
+From Pamiq Require Proofs.LockSerial.
 Import ListNotations.
 
 (* For every queue size (None, 0, n), every sequence of collect / update / get_data /
@@ -38,3 +39,21 @@ Print Assumptions C07_exclusive_acquire.
 Theorem C07_nonvacuous : model_outs nv_input =
   [PNone; PNone; PNone; PAdds [2; 3]%Z; PCount 2; PCount 1; PNone; PAdds [4]%Z; PCount 2; PAdds []].
 Proof. exact nv_run. Qed.
+
+(* "for every interleaving of collecting with updating, reading and saving": collect and the hand-over both run under
+   the collector's lock; for any threads, any programs of lock-protected operations and EVERY schedule of their
+   micro-steps, the shared state (the collector queue) is the sequential run of the operations in lock-acquisition
+   order, and only the holder changes it (generic theorem, Proofs/LockSerial.v).  The line-level runs check on the real
+   data/interface.py that an interleaved execution equals the atomic model run in that order. *)
+Theorem C07_every_interleaving_is_serial : forall (Sh : Type) (s0 : Sh) progs sched s,
+  Pamiq.Proofs.LockSerial.run Sh (Pamiq.Proofs.LockSerial.init Sh s0 progs) sched = Some s ->
+  Pamiq.Proofs.LockSerial.holder Sh s = None ->
+  Pamiq.Proofs.LockSerial.sh Sh s = Pamiq.Proofs.LockSerial.run_ops Sh (Pamiq.Proofs.LockSerial.done Sh s) s0.
+Proof. exact Pamiq.Proofs.LockSerial.every_interleaving_is_serial. Qed.
+Print Assumptions C07_every_interleaving_is_serial.
+
+Theorem C07_only_the_holder_writes : forall (Sh : Type) s i s',
+  Pamiq.Proofs.LockSerial.step Sh s i = Some s' -> Pamiq.Proofs.LockSerial.sh Sh s' <> Pamiq.Proofs.LockSerial.sh Sh s ->
+  Pamiq.Proofs.LockSerial.holder Sh s = Some i.
+Proof. exact Pamiq.Proofs.LockSerial.only_the_holder_writes. Qed.
+Print Assumptions C07_only_the_holder_writes.
